@@ -164,6 +164,23 @@ class _Recorder:
         task.add_done_callback(self.finished.append)
         return task
 
+    def tree(self):
+        """every task koreo created, creation order: name, parent (index or None = the root), final state"""
+        tasks = [t for t in self.parent if t is not self.root]
+        index = {t: i for i, t in enumerate(tasks)}
+        out = []
+        for t in tasks:
+            if not t.done():
+                state = "pending"
+            elif t.cancelled():
+                state = "cancelled"
+            elif t.exception() is not None:
+                state = "raised"
+            else:
+                state = "done"
+            out.append({"tid": id(t), "name": t.get_name(), "parent": index.get(self.parent.get(t)), "state": state})
+        return out
+
     def events(self, labels: set[str]):
         """top-level completion schedule: [label] for a step task, [label, i] for a forEach iteration"""
         out = []
@@ -179,14 +196,16 @@ class _Recorder:
         return out
 
 
-def run_prepared(prep: Prepared, order=None, faults=None, objects=None, trigger=None, extra_latency=None):
+def run_prepared(prep: Prepared, order=None, faults=None, objects=None, trigger=None, extra_latency=None,
+                 cluster_factory=None):
     """one reconcile pass; returns the observation dict (see module doc).  `order`: list of unit keys.
-    `faults`: {api-call index: fault} as in cluster.Cluster.  Raises nothing koreo does not raise."""
+    `faults`: {api-call index: fault} as in cluster.Cluster.  Raises nothing koreo does not raise.
+    `cluster_factory(objects=…, faults=…)` may supply a Cluster subclass (C09 records the calling task)."""
     import celpy
     from koreo.workflow.reconcile import reconcile_workflow
 
     case = prep.case
-    cl = Cluster(objects=copy.deepcopy(prep.objects if objects is None else objects), faults=faults)
+    cl = (cluster_factory or Cluster)(objects=copy.deepcopy(prep.objects if objects is None else objects), faults=faults)
     loop = VirtualLoop()
     rec = _Recorder(loop)
     loop.set_task_factory(rec.factory)
@@ -227,9 +246,12 @@ def run_prepared(prep: Prepared, order=None, faults=None, objects=None, trigger=
     try:
         asyncio.set_event_loop(loop)
         res = loop.run_until_complete(go())
-    except Exception as e:  # reconcile_workflow is expected never to raise (C09)
+    except (KeyboardInterrupt, SystemExit):
+        raise
+    except BaseException as e:  # reconcile_workflow is expected never to raise (C09); exception groups included
         raised = repr(e)
     finally:
+        tree = rec.tree()       # before the clean-up below: a task still pending here was left behind by koreo
         try:
             pending = [t for t in asyncio.all_tasks(loop) if not t.done()]
             for t in pending:
@@ -244,7 +266,7 @@ def run_prepared(prep: Prepared, order=None, faults=None, objects=None, trigger=
     labels = {s["label"] for s in main_steps(case)}
     obs = {"raised": raised, "elapsed": elapsed, "units": units,
            "log": [[e["method"], e["name"]] for e in cl.log],
-           "events": rec.events(labels), "cluster": cl}
+           "events": rec.events(labels), "cluster": cl, "task_tree": tree}
     if res is not None:
         conds = [[c.get("type"), c.get("reason"), c.get("status")] for c in res.conditions]
         obs.update({
